@@ -350,6 +350,10 @@ func (e *Env) ident(name string) Val {
 			return v
 		}
 	}
+	// variables captured by reference (closures under contract): the current content of the captured cell
+	if v, ok := vc.params[name]; ok && v.K == KAddr && v.A.Kind == ABox {
+		return vc.load(e.st, v.A)
+	}
 	if v, ok := e.lookupLocal(name); ok {
 		return v
 	}
@@ -904,12 +908,45 @@ func (e *Env) quant(kind string, n *ast.CallExpr) Val {
 	return BoolV(full)
 }
 
+func (vc *VC) needSid() {
+	sorts := make([]string, 16)
+	for k := range sorts {
+		sorts[k] = "Int"
+	}
+	vc.declareFun("sum16", sorts, "Int")
+	if vc.axiomSet["sum16_inj"] {
+		return
+	}
+	vc.axiomSet["sum16_inj"] = true
+	vars := ""
+	args := ""
+	for k := 0; k < 16; k++ {
+		vars += fmt.Sprintf("(b%d Int) ", k)
+		args += fmt.Sprintf(" b%d", k)
+	}
+	var inv []string
+	for k := 0; k < 16; k++ {
+		vc.declareFun(fmt.Sprintf("sum16_inv%d", k), []string{"Int"}, "Int")
+		inv = append(inv, fmt.Sprintf("(= (sum16_inv%d (sum16%s)) b%d)", k, args, k))
+	}
+	vc.asserts = append(vc.asserts, fmt.Sprintf("(forall (%s) (! (and (> (sum16%s) 0) %s) :pattern ((sum16%s))))", strings.TrimSpace(vars), args, strings.Join(inv, " "), args))
+	var sel []string
+	for k := 0; k < 16; k++ {
+		sel = append(sel, fmt.Sprintf("(select (select E r) (+ o %d))", k))
+	}
+	vc.macros = append(vc.macros, "(define-fun sid16 ((E (Array Int (Array Int Int))) (r Int) (o Int)) Int (sum16 "+strings.Join(sel, " ")+"))")
+	vc.declSet["sid16"] = true
+}
+
 // quantRec remembers a universally quantified spec formula so that emit() can add ground instances of it.
 type quantRec struct {
-	BV    string
+	BV    string   // first bound variable
+	More  []string // further bound variables (forall2 / forall3)
 	Text  string
 	Inner string
 }
+
+func (q *quantRec) vars() []string { return append([]string{q.BV}, q.More...) }
 
 // substSym replaces every occurrence of symbol sym in term by repl.
 func substSym(term, sym, repl string) string {
@@ -1019,10 +1056,14 @@ func (e *Env) callExpr(n *ast.CallExpr) Val {
 		for _, c := range pickPatternsN(body.S, vs) {
 			pat += " :pattern (" + c + ")"
 		}
+		var full string
 		if pat != "" {
-			return BoolV(fmt.Sprintf("(forall (%s) (! %s%s))", strings.TrimSpace(decl), body.S, pat))
+			full = fmt.Sprintf("(forall (%s) (! %s%s))", strings.TrimSpace(decl), body.S, pat)
+		} else {
+			full = fmt.Sprintf("(forall (%s) %s)", strings.TrimSpace(decl), body.S)
 		}
-		return BoolV(fmt.Sprintf("(forall (%s) %s)", strings.TrimSpace(decl), body.S))
+		vc.quants = append(vc.quants, &quantRec{BV: vs[0], More: vs[1:], Text: full, Inner: body.S})
+		return BoolV(full)
 	case "ite":
 		c, a, b := arg(0), arg(1), arg(2)
 		if a.K == KBool {
@@ -1133,30 +1174,10 @@ func (e *Env) callExpr(n *ast.CallExpr) Val {
 			panic(specErr("%s: sid() needs a byte slice", e.what))
 		}
 		h := vc.heapGet(e.st, byteHeap, arr2Sort("Int"))
-		// identity = an injective function of the 16 bytes (injectivity through inverse functions)
-		var bs []string
-		sorts := make([]string, 16)
-		for k := 0; k < 16; k++ {
-			bs = append(bs, Sel(Sel(h, v.Reg), Add(v.Off, numI(int64(k)))))
-			sorts[k] = "Int"
-		}
-		vc.declareFun("sum16", sorts, "Int")
-		if !vc.axiomSet["sum16_inj"] {
-			vc.axiomSet["sum16_inj"] = true
-			vars := ""
-			args := ""
-			for k := 0; k < 16; k++ {
-				vars += fmt.Sprintf("(b%d Int) ", k)
-				args += fmt.Sprintf(" b%d", k)
-			}
-			var inv []string
-			for k := 0; k < 16; k++ {
-				vc.declareFun(fmt.Sprintf("sum16_inv%d", k), []string{"Int"}, "Int")
-				inv = append(inv, fmt.Sprintf("(= (sum16_inv%d (sum16%s)) b%d)", k, args, k))
-			}
-			vc.asserts = append(vc.asserts, fmt.Sprintf("(forall (%s) (! (and (> (sum16%s) 0) %s) :pattern ((sum16%s))))", strings.TrimSpace(vars), args, strings.Join(inv, " "), args))
-		}
-		t := app("sum16", bs...)
+		// identity = an injective function of the 16 bytes (injectivity through inverse functions); sid16 is a macro over
+		// (byte heap, region, offset) so that the 16 selects are not spelled out at every occurrence
+		vc.needSid()
+		t := app("sid16", h, v.Reg, v.Off)
 		if !strings.Contains(t, "!q") {
 			t = vc.forceName("sid", "Int", t)
 		}
@@ -1177,6 +1198,9 @@ func (e *Env) callExpr(n *ast.CallExpr) Val {
 		closed := fmt.Sprintf("(forall ((y Int) (i Int)) (! (=> (and (select %s y) (<= 0 i) (< i (u_nparents y))) (select %s (u_parentOf y i))) :pattern ((select %s (u_parentOf y i)))))", S, S, S)
 		concl := fmt.Sprintf("(forall ((x Int)) (! (=> (u_anc x %s) (select %s x)) :pattern ((u_anc x %s))))", c, S, c)
 		return BoolV(Imp(And(Sel(S, c), closed), concl))
+	case "sumlt":
+		// strict total order on checksum ids: the byte-wise (lexicographic) order of the 16 bytes
+		return BoolV(vc.sumLess(arg(0).S, arg(1).S))
 	case "hasPrefix":
 		return BoolV(vc.hasPrefix(arg(0).S, arg(1).S))
 	case "domain":
